@@ -149,6 +149,18 @@ def gen_case(rng, dialect):
         # a parameter used only in a failing branch
         c = rng.choice(used)
         body = progen.L(progen.S("if"), progen.L(progen.S("="), progen.I(1), progen.I(2)), progen.L(progen.S("x"), progen.S(c)), body)
+    ints = [x for x in names if types[x] == "int"]
+    if ints and names and rng.random() < 0.12:
+        # a parameter used only inside a branch whose partial evaluation is DEEP (a recursion on a literal
+        # count that the evaluator cannot finish within its stack limit): the use must still be seen
+        L, S, I = progen.L, progen.S, progen.I
+        pw = g.fresh("pw_")
+        helpers.append(L(S("defun"), S(pw), L(S("B"), S("E")),
+                         L(S("if"), L(S("="), S("E"), I(0)), I(1), L(S("*"), S("B"), L(S(pw), S("B"), L(S("-"), S("E"), I(1)))))))
+        u = rng.choice(ints)
+        c = rng.choice(names)
+        deep = L(S(pw), S(u), I(rng.choice([20, 25, 40])))
+        body = L(S("if"), S(c), L(S("c"), deep, body), body) if rng.random() < 0.5 else L(S("if"), S(c), body, L(S("c"), deep, body))
     forms = [progen.S("mod"), pat, progen.L(progen.S("include"), progen.S(progen.SIGILS[dialect]))] + helpers + [body]
     tree = ("list", forms, None)
     return {"tree": tree, "text": progen.text(tree), "rich": progen.rich(tree), "shape": shape, "types": types,
